@@ -69,32 +69,66 @@ theorem joinable_iff (m : Mesh) (a b : Id) : m.joinable a b = true ↔
     cases m.joined x x <;> simp
   simp only [joinable, Bool.and_eq_true, bne_iff_ne, ne_eq, hnj, hadj, joined_iff, and_assoc]
 
-/-- TARGET: on a consistent mesh, for a joinable pair, `join_two_vertices` succeeds and the mesh it returns is
-    consistent again (all six clauses of `Mesh.Consistent`), whatever the incoming mapper -/
-theorem joinTwoVertices_consistent (m : Mesh) (a b : Id) (mapper : List (Id × Id))
+/-- the id under which `join_two_vertices` finds a vertex: `vertices[k]`, falling back to `vertices[mapper[k]]` -/
+def Mesh.resolveId (m : Mesh) (mapper : List (Id × Id)) (k : Id) : Id :=
+  if (m.vertex? k).isSome then k else (alGet? k mapper).getD k
+
+theorem resolveOpt_eq (m : Mesh) (mapper : List (Id × Id)) (k : Id)
+    (h : (m.vertex? (m.resolveId mapper k)).isSome = true) :
+    resolveOpt m mapper k = some (m.resolveId mapper k) := by
+  unfold resolveOpt
+  unfold resolveId at h ⊢
+  by_cases hk : (m.vertex? k).isSome = true
+  · simp only [hk, ↓reduceIte]
+  · simp only [hk, Bool.false_eq_true, ↓reduceIte] at h ⊢
+    cases hm : alGet? k mapper with
+    | none => rw [hm] at h; exact absurd h hk
+    | some k' => rw [hm] at h; simp only [Option.getD_some] at h ⊢; simp [h]
+
+/-- TARGET: on a consistent mesh, for a pair whose two ids resolve (directly or through the mapper) to a joinable
+    pair of vertices, `join_two_vertices` succeeds and the mesh it returns is consistent again (all six clauses of
+    `Mesh.Consistent`), whatever the incoming mapper -/
+theorem joinTwoVertices_consistent (m : Mesh) (pair : Id × Id) (mapper : List (Id × Id))
+    (h : m.Consistent = true)
+    (hj : m.joinable (m.resolveId mapper pair.1) (m.resolveId mapper pair.2) = true) :
+    ∃ F mp, m.joinTwoVertices pair mapper = .ok (F, mp) ∧ F.Consistent = true := by
+  rw [consistent_iff] at h
+  obtain ⟨h1, h2, h3, h4, h5, h6, h7⟩ := (joinable_iff m _ _).mp hj
+  obtain ⟨v0, v1, common, e0, e1, ec, c, _⟩ := joinFinal_consP m _ _ h h1 h2 h3 h4 h5 h6 h7
+  exact ⟨_, _, join_eq_gen m pair mapper _ _ v0 v1 (resolveOpt_eq m mapper _ h2) (resolveOpt_eq m mapper _ h3)
+    e0 e1 common ec, (consistent_iff _).mpr c⟩
+
+/-- the case the loop of `generate_mesh` starts with: both ids are vertices of the mesh -/
+theorem joinTwoVertices_consistent_direct (m : Mesh) (a b : Id) (mapper : List (Id × Id))
     (h : m.Consistent = true) (hj : m.joinable a b = true) :
     ∃ F mp, m.joinTwoVertices (a, b) mapper = .ok (F, mp) ∧ F.Consistent = true := by
-  rw [consistent_iff] at h
-  obtain ⟨h1, h2, h3, h4, h5, h6, h7⟩ := (joinable_iff m a b).mp hj
-  obtain ⟨F, e, c, _⟩ := join_consP m a b mapper h h1 h2 h3 h4 h5 h6 h7
-  exact ⟨F, _, e, (consistent_iff F).mpr c⟩
+  obtain ⟨_, h2, h3, _⟩ := (joinable_iff m a b).mp hj
+  apply joinTwoVertices_consistent m (a, b) mapper h
+  simp only [resolveId, h2, h3, ↓reduceIte]
+  exact hj
 
 /-- the shape of the result: the two old ids are gone and the fresh id `get_unused_id` is appended, the cells keep
     their ids, every surviving mesh edge is an old mesh edge with `a`, `b` renamed to the fresh id, and the mapper
-    sends both old ids to the fresh one -/
-theorem joinTwoVertices_shape (m : Mesh) (a b : Id) (mapper : List (Id × Id))
-    (h : m.Consistent = true) (hj : m.joinable a b = true) :
-    ∃ F, m.joinTwoVertices (a, b) mapper =
-        .ok (F, (mapper.filter fun p => p.1 != a && p.1 != b) ++ [(a, m.unusedId), (b, m.unusedId)]) ∧
+    sends both ids of the pair to the fresh one -/
+theorem joinTwoVertices_shape (m : Mesh) (pair : Id × Id) (mapper : List (Id × Id))
+    (h : m.Consistent = true)
+    (hj : m.joinable (m.resolveId mapper pair.1) (m.resolveId mapper pair.2) = true) :
+    let a := m.resolveId mapper pair.1
+    let b := m.resolveId mapper pair.2
+    ∃ F, m.joinTwoVertices pair mapper =
+        .ok (F, (mapper.filter fun p => p.1 != pair.1 && p.1 != pair.2) ++
+          [(pair.1, m.unusedId), (pair.2, m.unusedId)]) ∧
       F.vertices.map (·.1) = (m.vertices.map (·.1)).filter (fun k => k != a && k != b) ++ [m.unusedId] ∧
       F.cells.map (·.1) = m.cells.map (·.1) ∧
       (∀ q ∈ F.edges, ∃ q0 ∈ m.edges, q.1 = q0.1 ∧
         q.2.v1 = (if q0.2.v1 = a ∨ q0.2.v1 = b then m.unusedId else q0.2.v1) ∧
         q.2.v2 = (if q0.2.v2 = a ∨ q0.2.v2 = b then m.unusedId else q0.2.v2)) := by
+  intro a b
   rw [consistent_iff] at h
-  obtain ⟨h1, h2, h3, h4, h5, h6, h7⟩ := (joinable_iff m a b).mp hj
-  obtain ⟨F, e, _, c1, c2, c3⟩ := join_consP m a b mapper h h1 h2 h3 h4 h5 h6 h7
-  exact ⟨F, e, c1, c2, c3⟩
+  obtain ⟨h1, h2, h3, h4, h5, h6, h7⟩ := (joinable_iff m _ _).mp hj
+  obtain ⟨v0, v1, common, e0, e1, ec, _, c1, c2, c3⟩ := joinFinal_consP m _ _ h h1 h2 h3 h4 h5 h6 h7
+  exact ⟨_, join_eq_gen m pair mapper _ _ v0 v1 (resolveOpt_eq m mapper _ h2) (resolveOpt_eq m mapper _ h3)
+    e0 e1 common ec, c1, c2, c3⟩
 
 /-! ### non-vacuity: two triangles sharing the edge 1–2; the border edge 0–1 and the shared edge 1–2 are joinable -/
 
@@ -125,5 +159,90 @@ example : joinOutcome (twoTriangles.joinTwoVertices (0, 1) []) = some true ∧
     joinOutcome (twoTriangles.joinTwoVertices (1, 2) []) = some true := by decide +kernel
 
 example : (twoTriangles.vertex? twoTriangles.unusedId).isNone = true ∧ twoTriangles.unusedId = 4 := by decide +kernel
+
+/-- non-vacuity of the mapped form: after merging (0, 1) into the new vertex 4 the pair (1, 3) is found through the
+    mapper as (4, 3), which is joinable in the new mesh; the old id 1 is no longer a vertex -/
+example : (match joinChain twoTriangles [(0, 1)] with
+    | .ok (m', mp) => m'.Consistent && m'.joinable (m'.resolveId mp 1) (m'.resolveId mp 3) &&
+        (m'.resolveId mp 1 == 4) && !(m'.vertex? 1).isSome &&
+        (joinOutcome (m'.joinTwoVertices (1, 3) mp) == some true)
+    | .error _ => false) = true := by decide +kernel
+
+/-! ### necessity of the preconditions, and finding D17 -/
+
+/-- a square cell with the diagonal 0–2 as an extra mesh edge -/
+def squareWithDiagonal : Mesh := ofLists [(0, 0, 0), (1, 1, 0), (2, 1, 1), (3, 0, 1)]
+    [(0, 0, 1), (1, 1, 2), (2, 2, 3), (3, 3, 0), (4, 0, 2)] [(0, [0, 1, 2, 3])]
+
+/-- two quadrilaterals sharing the path 0–3–2 -/
+def twoQuads : Mesh := ofLists [(0, 0, 0), (1, 1, 0), (2, 2, 1), (3, 1, 1), (4, 1, 3)]
+    [(0, 0, 1), (1, 1, 2), (2, 2, 3), (3, 3, 0), (4, 2, 4), (5, 4, 0)] [(0, [0, 1, 2, 3]), (1, [0, 3, 2, 4])]
+
+def loopMesh : Mesh := ofLists [(0, 0, 0), (1, 1, 0)] [(0, 0, 1), (1, 0, 0)] []
+def twoGon : Mesh := ofLists [(0, 0, 0), (1, 1, 0)] [(0, 0, 1)] [(0, [0, 1])]
+def triangle : Mesh := ofLists [(0, 0, 0), (1, 1, 0), (2, 0, 1)] [(0, 0, 1), (1, 1, 2), (2, 2, 0)] [(0, [0, 1, 2])]
+
+/-- NECESSARY: "consecutive in every cell containing both".  All other clauses of `joinable` hold for the diagonal
+    (0, 2) of the square, the call succeeds, and the cell becomes [4, 1, 3] whose pair (1, 3) is joined by no mesh edge -/
+theorem joinTwoVertices_adjacent_witness :
+    squareWithDiagonal.Consistent = true ∧ squareWithDiagonal.joined 0 2 = true ∧
+    squareWithDiagonal.joined 0 0 = false ∧ squareWithDiagonal.joined 2 2 = false ∧
+    squareWithDiagonal.pairAdjacentInCells 0 2 = false ∧
+    joinOutcome (squareWithDiagonal.joinTwoVertices (0, 2) []) = some false := by decide +kernel
+
+/-- NECESSARY: "a cell containing both has at least three vertices".  In the two-gon [0, 1] the pair is consecutive,
+    but the cell collapses to the one-vertex cycle [2] whose closing pair (2, 2) would need a loop edge -/
+theorem joinTwoVertices_twogon_witness :
+    twoGon.Consistent = true ∧ twoGon.joined 0 1 = true ∧ twoGon.joined 0 0 = false ∧ twoGon.joined 1 1 = false ∧
+    twoGon.pairAdjacentInCells 0 1 = false ∧
+    joinOutcome (twoGon.joinTwoVertices (0, 1) []) = some false := by decide +kernel
+
+/-- NECESSARY: "no loop edge at a or b".  `SmallEdge.replace_vertex` rewrites only one end of the loop 0–0, so the
+    result keeps a mesh edge ending at the deleted vertex 0 (clause `refs`), whichever way round the pair is given -/
+theorem joinTwoVertices_loop_witness :
+    loopMesh.Consistent = true ∧ loopMesh.joined 0 1 = true ∧ loopMesh.joined 0 0 = true ∧
+    loopMesh.pairAdjacentInCells 0 1 = true ∧
+    joinOutcome (loopMesh.joinTwoVertices (0, 1) []) = some false ∧
+    joinOutcome (loopMesh.joinTwoVertices (1, 0) []) = some false := by decide +kernel
+
+/-- NECESSARY: "joined by a mesh edge" (else `common_edge` is empty: IndexError) and "both ids resolve to vertices"
+    (else KeyError, reported by generate_mesh as SegmentationArtifactException) -/
+theorem joinTwoVertices_notJoined_witness :
+    twoTriangles.joined 0 3 = false ∧
+    joinError (twoTriangles.joinTwoVertices (0, 3) []) = some .indexError ∧
+    joinError (twoTriangles.joinTwoVertices (0, 7) []) = some .keyError := by decide +kernel
+
+/-- NECESSARY: `a ≠ b`.  Joining vertex 0 of a triangle with itself deletes one of its two mesh edges and leaves the
+    cycle [3, 1, 2] with an unjoined pair -/
+theorem joinTwoVertices_samePair_witness :
+    joinOutcome (triangle.joinTwoVertices (0, 0) []) = some false := by decide +kernel
+
+/-- finding D17 (chain of merges): the pairs (0, 1) and (1, 2) share vertex 1 and both are joinable in the input
+    mesh.  The first call is covered by `joinTwoVertices_consistent`; the second one finds vertex 1 through the mapper
+    as the new vertex 5, which in the cell [5, 3, 2, 4] is *not* consecutive with 2 — the precondition is not stable under
+    the first merge — and the mesh returned is not consistent (pair (3, 4) of the cycle [6, 3, 4] is not joined) -/
+theorem joinTwoVertices_chain_witness :
+    twoQuads.Consistent = true ∧ twoQuads.joinable 0 1 = true ∧ twoQuads.joinable 1 2 = true ∧
+    joinOutcome (joinChain twoQuads [(0, 1)]) = some true ∧
+    joinOutcome (joinChain twoQuads [(0, 1), (1, 2)]) = some false := by decide +kernel
+
+/-- finding D17 (stale mapper): merging the three sides of a triangle one after the other.  The second call meets two
+    parallel mesh edges 3–2 (uniqueness of the joining edge is NOT needed: the survivor becomes a loop at the new vertex and
+    the mesh stays consistent); the third call looks up vertex 0 through the mapper entry 0 ↦ 3 written by the first call,
+    but 3 was deleted by the second: KeyError -/
+theorem joinTwoVertices_staleMapper_witness :
+    triangle.Consistent = true ∧
+    joinOutcome (joinChain triangle [(0, 1)]) = some true ∧
+    joinOutcome (joinChain triangle [(0, 1), (1, 2)]) = some true ∧
+    joinError (joinChain triangle [(0, 1), (1, 2), (2, 0)]) = some .keyError := by decide +kernel
+
+/- PENDING (not attempted here, no theorem):
+   * `generateMesh m ne true` (the whole loop of generate_mesh with replace_short_edges): consistency of the final mesh.
+     `joinTwoVertices_consistent` covers one call; for the loop one needs `joinable` for every pair *in the mesh
+     produced by the previous calls*, which `joinTwoVertices_chain_witness` shows is not inherited (finding D17).
+   * `generateMesh m ne false`: only clause (1) is proved (`generateMesh_ownEdgesOk` in Props/C09.lean); clauses (2)–(5)
+     after the vertex removal and edge rebuild are evaluated per run by the driver.
+   * the skeleton clean-up operations (inner-triangle removal, T3 transition, isolated-cell removal).
+-/
 
 end Forsys
